@@ -386,6 +386,9 @@ func flight4Generate(
 		if err != nil {
 			return nil, &alert.Alert{Level: alert.Fatal, Description: alert.HandshakeFailure}, err
 		}
+		if !certificateFitsCipherSuite(certificate, state.CipherSuite) {
+			return nil, &alert.Alert{Level: alert.Fatal, Description: alert.HandshakeFailure}, dtlserrors.ErrInvalidCipherSuite
+		}
 
 		pkts = append(pkts, &dtlsflight.Packet{
 			Record: &recordlayer.RecordLayer{
